@@ -20,8 +20,9 @@ def mac_supported(alg):
         return False
 
 
-def tag(key, mac, data):
-    return hmac.new(subkeys(key)[1], data, MAC_ALG[mac]).digest()
+def tag(key, mac, data, mac_key=None):
+    """mac_key overrides the MAC subkey SHA1(key||"2") (for forgeries under guessed / well-known subkeys)"""
+    return hmac.new(subkeys(key)[1] if mac_key is None else mac_key, data, MAC_ALG[mac]).digest()
 
 
 def inner(salt=b"\0" * 8, addr=b"\x7f\0\0\1", time0=0, ttl=300, uid=0, gid=0, auth_uid=0xFFFFFFFF,
@@ -37,9 +38,9 @@ def zip_wrap(z, raw, claimed=None, magic=ZIP_MAGIC):
     return struct.pack(">II", magic, len(raw) if claimed is None else claimed) + comp
 
 
-def mint_raw(key, outer, inner_bytes, mac=5, tag_override=None):
+def mint_raw(key, outer, inner_bytes, mac=5, tag_override=None, mac_key=None):
     """outer||tag||inner with the tag computed over outer||inner (cipher NONE: inner sent in clear)."""
-    t = tag(key, mac, outer + inner_bytes) if tag_override is None else tag_override
+    t = tag(key, mac, outer + inner_bytes, mac_key) if tag_override is None else tag_override
     return outer + t + inner_bytes
 
 
@@ -47,10 +48,10 @@ def armor(body):
     return b"MUNGE:" + base64.b64encode(body) + b":\0"
 
 
-def mint(key, mac=5, zip_=0, realm=b"", inner_bytes=None, version=3, cipher=0, **kw):
+def mint(key, mac=5, zip_=0, realm=b"", inner_bytes=None, version=3, cipher=0, mac_key=None, **kw):
     if inner_bytes is None:
         inner_bytes = inner(**kw)
         if zip_ in (2, 3):
             inner_bytes = zip_wrap(zip_, inner_bytes)
     outer = bytes([version, cipher, mac, zip_, len(realm) & 0xFF]) + realm
-    return armor(mint_raw(key, outer, inner_bytes, mac))
+    return armor(mint_raw(key, outer, inner_bytes, mac, mac_key=mac_key))
